@@ -83,17 +83,17 @@ func headerDiff(in, out *vdown.Parsed) string {
 }
 
 type shape struct {
-	codec             vdown.Codec
-	pidBits           int
-	l, k, noT         bool
-	csrcs             int
-	flexible          bool
-	slayers           int
-	pattern           int
-	framesWithheld    int
-	framesAfterDrop   int
-	markerSet         int
-	pidWrapped        bool
+	codec           vdown.Codec
+	pidBits         int
+	l, k, noT       bool
+	csrcs           int
+	flexible        bool
+	slayers         int
+	pattern         int
+	framesWithheld  int
+	framesAfterDrop int
+	markerSet       int
+	pidWrapped      bool
 }
 
 func runHistory(run *vk.Run, idx uint64) {
